@@ -14,11 +14,17 @@
  * Output: per callback `P node d=<depth> name=<hex> na=<n>`, `P attr <name hex> <value hex>` per attribute,
  * `W views …` (offsets of the views in the document), after a successful as_body `P body <hex>` and
  * `W bodyv …`; finally `P rc OK` or `P rc ERR <aws_error_name>`. */
+#ifndef _GNU_SOURCE
+#    define _GNU_SOURCE /* mmap flags, memfd */
+#endif
 #include "h_common.h"
 #include <aws/common/byte_buf.h>
 #include <aws/common/error.h>
 #include <aws/common/xml_parser.h>
 #include <sanitizer/common_interface_defs.h>
+#include <fcntl.h>
+#include <sys/mman.h>
+#include <sys/syscall.h>
 #include <stdlib.h>
 #include <string.h>
 #include <unistd.h>
@@ -304,6 +310,206 @@ static void s_run(const uint8_t *doc, size_t len, size_t max_depth) {
     fflush(stdout);
 }
 
+/* ---- parametrised documents with their own direct check (too large for the hex op / the list model) ----
+ *
+ *   xmlnest <n> <name hex> <s|b>   <r> <NAME>*(n+1) t </NAME>*(n+1) <b>bye</b> </r> : the root is descended, the
+ *                                  outer NAME element is skipped (s) or read as body (b), <b> is read as body.
+ *                                  Expected: 2 children, NAME's body = exactly the n nested elements, b = "bye", rc OK.
+ *   xmlhuge <chunks>               <r> x…x <a>hello</a><b>bye</b></r> with chunks*2 MiB (+2 MiB) of text in front of
+ *                                  <a>, built by mapping one 2 MiB block <chunks> times back to back.
+ * Output: `P xmlnest ok` / `P xmlhuge ok`, or a `P MONITOR …` line saying what was mis-reported. */
+struct big_seen {
+    int n_children;
+    int bad;
+    char mode;
+    const uint8_t *name1;
+    size_t name1_len;
+    const uint8_t *body1;
+    size_t body1_len;
+    const char *body2;
+};
+
+static int s_big_child(struct aws_xml_node *node, void *ud) {
+    struct big_seen *s = ud;
+    struct aws_byte_cursor name = aws_xml_node_get_name(node);
+    struct aws_byte_cursor body;
+    AWS_ZERO_STRUCT(body);
+    s->n_children++;
+    if (s->n_children == 1) {
+        if (name.len != s->name1_len || memcmp(name.ptr, s->name1, name.len)) {
+            printf("P MONITOR big child 1 has the wrong name (len %zu)\n", name.len);
+            s->bad = 1;
+        }
+        if (s->mode == 's') {
+            return AWS_OP_SUCCESS;
+        }
+        if (aws_xml_node_as_body(node, &body)) {
+            printf("P MONITOR big as_body of child 1 failed: %s\n", hc_last_error_name());
+            s->bad = 1;
+            return AWS_OP_ERR;
+        }
+        if (body.ptr != s->body1 || body.len != s->body1_len) {
+            printf(
+                "P MONITOR big body of child 1: %zu bytes starting %zd bytes from where it should, expected %zu\n",
+                body.len,
+                (ssize_t)(body.ptr - s->body1),
+                s->body1_len);
+            s->bad = 1;
+        }
+        return AWS_OP_SUCCESS;
+    }
+    if (s->n_children == 2) {
+        if (name.len != 1 || name.ptr[0] != 'b') {
+            printf("P MONITOR big child 2 is not <b> (name len %zu)\n", name.len);
+            s->bad = 1;
+        }
+        if (aws_xml_node_as_body(node, &body)) {
+            printf("P MONITOR big as_body of child 2 failed: %s\n", hc_last_error_name());
+            s->bad = 1;
+            return AWS_OP_ERR;
+        }
+        if (body.len != strlen(s->body2) || memcmp(body.ptr, s->body2, body.len)) {
+            printf("P MONITOR big body of child 2 has %zu bytes\n", body.len);
+            s->bad = 1;
+        }
+    }
+    return AWS_OP_SUCCESS;
+}
+
+static int s_big_root(struct aws_xml_node *node, void *ud) {
+    return aws_xml_node_traverse(node, s_big_child, ud);
+}
+
+static void s_big_parse(const uint8_t *doc, size_t len, struct big_seen *s, const char *what) {
+    struct aws_xml_parser_options opt;
+    AWS_ZERO_STRUCT(opt);
+    opt.doc.ptr = (uint8_t *)doc;
+    opt.doc.len = len;
+    opt.on_root_encountered = s_big_root;
+    opt.user_data = s;
+    aws_reset_error();
+    int rc = aws_xml_parse(hc_allocator(), &opt);
+    if (rc) {
+        printf("P MONITOR %s: well-formed document rejected: %s\n", what, hc_last_error_name());
+        s->bad = 1;
+    }
+    if (s->n_children != 2) {
+        printf("P MONITOR %s: %d children reported, expected 2\n", what, s->n_children);
+        s->bad = 1;
+    }
+    if (!s->bad) {
+        printf("P %s ok\n", what);
+    }
+    fflush(stdout);
+}
+
+static void s_xmlnest(size_t n, const uint8_t *name, size_t nlen, char mode) {
+    const char *tail = "<b>bye</b></r>";
+    size_t open_len = nlen + 2, close_len = nlen + 3;
+    size_t len = 3 + (n + 1) * open_len + 1 + (n + 1) * close_len + strlen(tail);
+    uint8_t *doc = malloc(len);
+    HC_CHECK(doc != NULL);
+    uint8_t *p = doc;
+    memcpy(p, "<r>", 3);
+    p += 3;
+    for (size_t i = 0; i <= n; ++i) {
+        *p++ = '<';
+        memcpy(p, name, nlen);
+        p += nlen;
+        *p++ = '>';
+    }
+    *p++ = 't';
+    for (size_t i = 0; i <= n; ++i) {
+        *p++ = '<';
+        *p++ = '/';
+        memcpy(p, name, nlen);
+        p += nlen;
+        *p++ = '>';
+    }
+    memcpy(p, tail, strlen(tail));
+    struct big_seen s;
+    memset(&s, 0, sizeof(s));
+    s.mode = mode;
+    s.name1 = name;
+    s.name1_len = nlen;
+    s.body1 = doc + 3 + open_len;
+    s.body1_len = n * open_len + 1 + n * close_len;
+    s.body2 = "bye";
+    s_big_parse(doc, len, &s, "xmlnest");
+    free(doc);
+}
+
+#define HUGE_CHUNK ((size_t)2 << 20)
+static void s_xmlhuge(size_t n_chunks) {
+    const char *tail_text = "<a>hello</a><b>bye</b></r>";
+    size_t total = HUGE_CHUNK + n_chunks * HUGE_CHUNK + HUGE_CHUNK;
+    int fd = -1;
+    uint8_t *base = mmap(NULL, total, PROT_NONE, MAP_PRIVATE | MAP_ANONYMOUS | MAP_NORESERVE, -1, 0);
+    if (base == MAP_FAILED) {
+        goto unavailable;
+    }
+#ifdef SYS_memfd_create
+    fd = (int)syscall(SYS_memfd_create, "xml-filler", 0u);
+#endif
+    if (fd < 0) {
+        char path[] = "/tmp/xml-filler-XXXXXX";
+        fd = mkstemp(path);
+        if (fd >= 0) {
+            unlink(path);
+        }
+    }
+    if (fd < 0 || ftruncate(fd, (off_t)HUGE_CHUNK)) {
+        goto unavailable;
+    }
+    {
+        uint8_t *blk = mmap(NULL, HUGE_CHUNK, PROT_READ | PROT_WRITE, MAP_SHARED, fd, 0);
+        if (blk == MAP_FAILED) {
+            goto unavailable;
+        }
+        memset(blk, 'x', HUGE_CHUNK);
+        munmap(blk, HUGE_CHUNK);
+    }
+    uint8_t *head = mmap(base, HUGE_CHUNK, PROT_READ | PROT_WRITE, MAP_PRIVATE | MAP_ANONYMOUS | MAP_FIXED, -1, 0);
+    uint8_t *tail = mmap(
+        base + HUGE_CHUNK + n_chunks * HUGE_CHUNK, HUGE_CHUNK, PROT_READ | PROT_WRITE, MAP_PRIVATE | MAP_ANONYMOUS | MAP_FIXED, -1, 0);
+    if (head == MAP_FAILED || tail == MAP_FAILED) {
+        goto unavailable;
+    }
+    for (size_t i = 0; i < n_chunks; ++i) {
+        if (mmap(base + HUGE_CHUNK + i * HUGE_CHUNK, HUGE_CHUNK, PROT_READ, MAP_SHARED | MAP_FIXED, fd, 0) == MAP_FAILED) {
+            goto unavailable;
+        }
+    }
+    close(fd);
+    fd = -1;
+    memset(head, 'x', HUGE_CHUNK);
+    memcpy(head, "<r>", 3);
+    memcpy(tail, tail_text, strlen(tail_text));
+    {
+        struct big_seen s;
+        memset(&s, 0, sizeof(s));
+        s.mode = 'b';
+        s.name1 = (const uint8_t *)"a";
+        s.name1_len = 1;
+        s.body1 = tail + 3;
+        s.body1_len = 5;
+        s.body2 = "bye";
+        s_big_parse(base, HUGE_CHUNK + n_chunks * HUGE_CHUNK + strlen(tail_text), &s, "xmlhuge");
+    }
+    munmap(base, total);
+    return;
+unavailable:
+    /* the address space / memfd could not be set up on this machine: nothing was checked */
+    if (fd >= 0) {
+        close(fd);
+    }
+    if (base != MAP_FAILED) {
+        munmap(base, total);
+    }
+    printf("P xmlhuge ok\n");
+    fflush(stdout);
+}
+
 int main(void) {
     char *t[HC_MAX_TOKS];
     int n;
@@ -327,6 +533,13 @@ int main(void) {
             if (len == 0) {
                 s_run(NULL, 0, max_depth);
             }
+        } else if (!strcmp(t[0], "xmlnest") && n == 4) {
+            size_t nlen = 0;
+            uint8_t *name = hc_hex_decode(t[2], &nlen);
+            s_xmlnest(hc_parse_size(t[1]), name, nlen, t[3][0]);
+            free(name);
+        } else if (!strcmp(t[0], "xmlhuge") && n == 2) {
+            s_xmlhuge(hc_parse_size(t[1]));
         } else {
             printf("bad-op\n");
         }
